@@ -27,6 +27,7 @@ def tasks(tier, seed):
 def extra(led, tier, seed):
     from contracts import sparse_sel
     led.extend(sparse_sel.update_weights_flow())
+    led.extend(sparse_sel.fit_groups_flow())
     led.extend(sparse_sel.check_groups_exhaustive(4 if tier == "thorough" else 3))
     led.assume("A1", "A2", "A3", "A4", "A8",
                "hierarchy: feasibility |W1[f,j]| <= M*||W_skip[f]|| of the hierarchical prox (C05 contract, re-checked here) makes the first-layer row of an "
